@@ -167,6 +167,9 @@ def _one_path(world, ex, con, fsrc, case, rets, raises, out):
             pass        # an old() of another type case that makes no sense here; using it is a ContractError
     pre_params = dict(env)
     ex.pre_params = pre_params
+    if getattr(con, "replay_entry_state", False):
+        # counterexamples are replayed from the ENTRY state: containers the body mutates in place are snapshotted
+        ex.replay_params = {k: _entry_snapshot(v, 0) for k, v in env.items()}
     ex.cur_spec_frame = _spec_frame(frame, pre_params)
     n_req = len(ex.pc)
     if con.region:
@@ -308,6 +311,18 @@ def _run_selfcomp(ex, con, fsrc, frame, env, out):
         ex.spec_mode = saved
     ex.oblige("selfcomp", "%s:equal_value" % label, same_val, exit_text=text, clause="r' == r")
     ex.oblige("selfcomp", "%s:same_type" % label, same_ty, exit_text=text, clause="type(r') is type(r)")
+
+
+def _entry_snapshot(v, depth):
+    import copy
+    from .sym import VRec, VMap, VSeq
+    if isinstance(v, VRec) and depth < 4:
+        c = copy.copy(v)
+        c.fields = {k: _entry_snapshot(x, depth + 1) for k, x in v.fields.items()}
+        return c
+    if isinstance(v, (VMap, VSeq)):
+        return copy.copy(v)       # terms are immutable: later in-place updates rebind the original's attributes only
+    return v
 
 
 def _spec_frame(frame, pre_params):
